@@ -6,4 +6,5 @@ pid, out = sys.argv[1:3]
 t = Path("/verif/tools/prompts/STRENGTHEN.txt").read_text().replace("{ID}", pid).replace("{OUT}", out)
 if len(sys.argv) > 3:
     t += f"\nExtra notes for {pid}: " + " ".join(sys.argv[3:]) + "\n"
-p = Path(f"/verif/tools/prompts/strengthen6_{pid}.txt"); p.write_text(t); print(p)
+import os
+p = Path(f"/verif/tools/prompts/strengthen{os.environ.get('ROUND','6')}_{pid}.txt"); p.write_text(t); print(p)
